@@ -10,6 +10,7 @@ import Bng.Model.TokenBucket
     rmqos a=<ip8hex>                                  => ok [e-=<key>] [i-=<key>]
     defpolicy <name> <down> <up> <burst> <prio>       => ok             PolicyManager.AddPolicy (defines or REdefines)
     rmpolicy <name>                                   => ok             PolicyManager.RemovePolicy
+    getpolicy <name>                                  => <down> <up> <burst> <prio> | none   PolicyManager.GetPolicy
     setpolicy a=<ip8hex> <name>                       => ok [e=…] [i=…] | err policy_not_found:_<name>
     count                                             => <n>            Manager.GetSubscriberCount
     raw <e|i> <keyhex> <valhex>                       => ok | err size
@@ -293,6 +294,18 @@ def step (st : St) (toks : List String) (impl : String) : St × LineResult :=
     if !st.started then (st, { modelObs := "badop" }) else
     ({ st with pols := removePolicy st.pols name,
                sPols := if impl == "ok" then AMap.erase st.sPols name else st.sPols }, { modelObs := "ok" })
+  | ["getpolicy", name] =>
+    if !st.started then (st, { modelObs := "badop" }) else
+    let obs := match AMap.lookup st.pols name with
+      | some p => s!"{p.down.toNat} {p.up.toNat} {p.burst.toNat} {p.prio.toNat}"
+      | none => "none"
+    -- policy monitor: GetPolicy must return the LAST definition set through the control plane, every field
+    let want := match AMap.lookup st.sPols name with
+      | some p => s!"{p.down} {p.up} {p.burst} {p.prio}"
+      | none => "none"
+    (st, { modelObs := obs,
+           viols := if impl == want then [] else
+             [("policy", "none", s!"GetPolicy({name}) returns [{impl}], the last definition set through the control plane is [{want}]")] })
   | ["setpolicy", a, name] =>
     if !st.started then (st, { modelObs := "badop" }) else
     match (kvTok a).bind fun (k, v) => if k == "a" then parseHexBytes v else none with
